@@ -115,6 +115,11 @@ m("c10-v2l-low-entropy-nonce", ["C10"], "GenericBuilder<V2,Local> randomises onl
     "        Ok(token_builder.try_encrypt(key, &PasetoNonce::<V2, Local>::from(&Key::<24>::try_new_random()?))?)",
     "        let r = Key::<24>::try_new_random()?;\n        let mut n = [0u8; 24];\n        n[..2].copy_from_slice(&r[..2]);\n        Ok(token_builder.try_encrypt(key, &PasetoNonce::<V2, Local>::from(&Key::<24>::from(n)))?)")])
 
+m("c10-v3l-rng-failure-falls-back-to-default", ["C10"], "GenericBuilder<V3,Local> falls back to a default (all-zero) nonce when the system RNG fails",
+  [("src/generic/builders/generic_builder.rs",
+    "        let nonce = Key::<32>::try_new_random()?;\n        let nonce = PasetoNonce::<V3, Local>::from(&nonce);",
+    "        let nonce = Key::<32>::try_new_random().unwrap_or_default();\n        let nonce = PasetoNonce::<V3, Local>::from(&nonce);")])
+
 # ---- C11 / C12 ------------------------------------------------------------------------------------------
 m("c11-exp-compares-wall-clock-fields", ["C11"], "exp validator compares local wall-clock fields instead of instants (offset-blind)",
   [("src/prelude/paseto_parser.rs", "            if datetime <= now {\n                Err(PasetoClaimError::Expired)", "            if (datetime.date(), datetime.time()) <= (now.date(), now.time()) {\n                Err(PasetoClaimError::Expired)")])
